@@ -115,6 +115,7 @@ static void generic(vh::Rng & r, vh::Out & out)
   const Eigen::Affine3d & T = c.getEnuToEcefTransform();
   Eigen::Matrix3d R = T.linear();
   bool proper = (R * R.transpose() - Eigen::Matrix3d::Identity()).norm() < 1e-9 && std::fabs(R.determinant() - 1) < 1e-9;
+  {Eigen::Vector3d p(u() * 1e5, u() * 1e5, u() * 1e4); if ((T * p - c.toECEF(p[0], p[1], p[2])).norm() > 1e-6) {proper = false;}}   // same transform, both overloads
   out.put(vh::Ev("generic").i("hist", hist).i("originRes", units(o.norm())).i("upRes", units(up.norm())).i("isoRes", units(iso))
     .i("invEcefRes", units(invE)).i("invGeoRes", units(invG)).b("eastOK", eastOK).b("northOK", northOK).b("properOK", proper)
     .i("latMicroDeg", (long long)std::llround(lat * 180 / M_PI * 1e6)).i("lonMicroDeg", (long long)std::llround(lon * 180 / M_PI * 1e6)));
@@ -164,6 +165,7 @@ static void exec(vh::Rng & r, vh::Out & out)
       Eigen::Vector3d v = c->toENU(geo(f)); anchored = true;
       out.put(vh::Ev("toEnuGeo").vec("la", f.la).vec("lo", f.lo).i("h", f.h).vec("mm", mm(v)).b("anch", c->isAnchored()));
     } else if (anchored) {
+      if (r.coin(1, 5)) {std::unique_ptr<ENUConverter> cp(new ENUConverter(*c)); c = std::move(cp);}          // continue on a copy of the converter
       probe(r, *c, f, out);
     }
   }
